@@ -62,8 +62,23 @@ func fmtToBuiltin(ctx *importCtx, scope *types.Scope, sel *ast.Ident, ref *ast.E
 func commandStyleFirst(v *ast.CallExpr) {
 	switch v.Fun.(type) {
 	case *ast.Ident, *ast.SelectorExpr:
-		if v.NoParenEnd == token.NoPos {
+		if v.NoParenEnd == token.NoPos && startsWithIdent(v.Fun) {
 			v.NoParenEnd = v.Rparen
+		}
+	}
+}
+
+// startsWithIdent reports whether the callee is a name or a chain of selectors on a name: a command-style
+// statement must start with an identifier (`(&T{2}).Show 3` does not parse).
+func startsWithIdent(x ast.Expr) bool {
+	for {
+		switch v := x.(type) {
+		case *ast.Ident:
+			return true
+		case *ast.SelectorExpr:
+			x = v.X
+		default:
+			return false
 		}
 	}
 }
